@@ -292,7 +292,12 @@ def corpus():
     at = ('[Tabulation]\ntarget : LAMMPS\nnr : 6\ncutoff : 3.0\n[Potential-Form]\nbm(r, A, b) = A := A*2.0; r := r/0.5; A*exp(-b*r)\nlin(r, c) = c := c + 1.0; c*r\n'
           '[Pair]\nA-A : bm 3.0 0.5\nA-B : lin 2.0\nB-B : sum(bm 1.0 0.25, lin 0.5)\n')
     c5 = {'kind': 'assign', 'text': at, 'history': [[0, 1.0], [0, 1.0], [1, 2.0], [0, 2.0], [0, 1.0], [1, 2.0], [2, 1.5], [1, 0.5], [2, 1.5], [0, 2.0]]}
-    return [c1, c2, c3, c4, c5]
+    # a large table (three pairs x 6000 rows) whose pairs share one custom form with different parameters: the rows of one pair must not
+    # depend on when the rows of another are computed (a writer that tabulates big tables piecewise or concurrently shows only here)
+    big = ('[Tabulation]\ntarget : LAMMPS\nnr : 6001\ncutoff : 6.0\n[Potential-Form]\nbm2(r, A, b) = A*exp(-b*r)\nmix(r, A, b, c) = bm2(r, A, b) + c/r\n'
+           '[Pair]\nA-A : bm2 1000.0 3.0\nA-B : bm2 500.0 2.0\nB-B : mix 250.0 1.5 -0.5\n')
+    c6 = {'kind': 'seeds', 'text': big, 'seeds': [0, 1, 2]}
+    return [c1, c2, c3, c4, c5, c6]
 
 def correspond(ctx):
     rng = ctx['rng']
